@@ -45,12 +45,14 @@ func main() {
 	lo := fs.Int("lo", 0, "execute only generated cases with index >= lo (the generator still draws every case)")
 	hi := fs.Int("hi", -1, "execute only generated cases with index < hi (-1 = no limit)")
 	nocorpus := fs.Bool("nocorpus", false, "skip the fixed corpus cases")
+	shrink := fs.String("shrink", "", "with -replay: delta-debug each scenario while an oracle failure with this signature persists")
 	_ = fs.Parse(os.Args[2:])
 	w, err := hx.NewWriter(*out)
 	if err != nil {
 		fmt.Fprintln(os.Stderr, err)
 		os.Exit(2)
 	}
+	shrinkSig = *shrink
 	if *replay != "" {
 		data, err := os.ReadFile(*replay)
 		if err != nil {
@@ -78,6 +80,8 @@ func main() {
 
 // case window for crash isolation: a sub-harness whose cases can kill the process (stack overflow) asks
 // `active()` before executing a generated case; the generator draws the same random choices regardless.
+var shrinkSig string
+
 var caseLo, caseHi, caseIdx = 0, -1, 0
 
 func active() bool {
